@@ -38,6 +38,7 @@ let parse_script (script : string) =
                    go r (OWrite (gen 0 []) :: acc)
                  | _ -> failwith "z")
        | 'r' -> go r (OWrite (bytes_of_hex a) :: acc)
+       | 'P' -> go r (OPut (bytes_of_hex a) :: acc)
        | 'f' -> go r (OFlush :: acc)
        | 'b' -> let n = int_of_string a in go r ((if n < 0 then OSetbuf (true, N0) else OSetbuf (false, n_of_int n)) :: acc)
        | 'u' -> go r (OFull (a = "1") :: acc)
